@@ -23,7 +23,7 @@ def _init(repo, cdir, lattice):
 
 
 def _work(args):
-    key, timeout_ms, second_ms, cross = args
+    key, timeout_ms, second_ms, cross, sl, nsl = args
     import z3
     side: Sidecar = _G['side']
     con = side.contracts.get(key) or side.lemmas.get(key)
@@ -33,7 +33,9 @@ def _work(args):
     try:
         info = eng.verify(con)
         res.update(info)
-        for ob in eng.obligations:
+        for oi, ob in enumerate(eng.obligations):
+            if oi % nsl != sl:
+                continue
             eng.solve(ob, timeout_ms, second_ms, cross)
             res['obligations'].append({
                 'id': ob.oid, 'func': ob.func, 'kind': ob.kind, 'label': ob.label, 'props': ob.props, 'verdict': ob.verdict,
@@ -41,7 +43,7 @@ def _work(args):
                 'route': ob.route, 'model': ob.model, 'reason': ob.reason,
             })
         # vacuity guard: some exit path must be satisfiable together with the preconditions / assumptions
-        exits = [ob for ob in eng.obligations if ob.path_kind in ('return', 'raise', 'table', 'lemma')]
+        exits = [ob for ob in eng.obligations if ob.path_kind in ('return', 'raise', 'table', 'lemma')] if sl == 0 else []
         seen_pc = set()
         feasible = None
         for ob in exits:
@@ -51,6 +53,7 @@ def _work(args):
                 feasible = r
                 break
         res['vacuity'] = 'ok' if (feasible or not exits) else 'ALL-EXIT-PATHS-INFEASIBLE'
+        res['obligations'] = [o for o in res['obligations']]
     except OutOfSubset as e:
         res['status'] = 'out_of_subset'
         res['error'] = str(e)
@@ -80,13 +83,36 @@ def run(repo: str, cdir: str, keys: Optional[List[str]] = None, props: Optional[
         sel.append(k)
     if not sel:
         return []
-    procs = max(1, min(procs, len(sel)))
+    jobs = []
+    for k in sel:
+        nsl = max(1, getattr(allc[k], 'slices', 1))
+        # big functions first so that their slices spread over the pool
+        for sl in range(nsl):
+            jobs.append((k, timeout_ms, second_ms, cross, sl, nsl))
+    jobs.sort(key=lambda j: -j[5])
+    procs = max(1, min(procs, len(jobs)))
     if procs == 1:
         _init(repo, cdir, lattice)
-        return [_work((k, timeout_ms, second_ms, cross)) for k in sel]
-    ctx = mp.get_context('fork')
-    with ctx.Pool(procs, initializer=_init, initargs=(repo, cdir, lattice)) as pool:
-        return pool.map(_work, [(k, timeout_ms, second_ms, cross) for k in sel], chunksize=1)
+        parts = [_work(j) for j in jobs]
+    else:
+        ctx = mp.get_context('fork')
+        with ctx.Pool(procs, initializer=_init, initargs=(repo, cdir, lattice)) as pool:
+            parts = pool.map(_work, jobs, chunksize=1)
+    # merge the slices of one function
+    merged: Dict[str, Dict[str, Any]] = {}
+    for p in parts:
+        m = merged.get(p['key'])
+        if m is None:
+            merged[p['key']] = p
+        else:
+            m['obligations'].extend(p['obligations'])
+            m['wall_s'] = round(max(m['wall_s'], p['wall_s']), 3)
+            if p['status'] != 'ok':
+                m['status'] = p['status']
+                m['error'] = p.get('error')
+            if p.get('vacuity') not in (None, 'ok'):
+                m['vacuity'] = p['vacuity']
+    return [merged[k] for k in sel if k in merged]
 
 
 def main(argv=None):
